@@ -104,6 +104,12 @@ def c07(ctx):
     for need in ("checkmate", "stalemate", "single-legal-move", "forced-line", "check"):
         if counts.get(need, 0) == 0:
             raise ToolError("vacuity guard: no %s position among the search roots" % need)
+    # searches with a generator that has seen the whole history of a game (shuffles in which the same placement
+    # recurs with fewer rights / an expired en-passant target): the answer must be a legal move of THIS position
+    import props_engine
+    sb, sev, sh, ssk = props_engine.run_traces(ctx, "scripts", 1, 0, 0, label="c07scripts")
+    props_engine.absorb_bad(ctx, sb)
+    ctx.evaluations += sev
     pp = write_ndjson(ctx.path("roots.ndjson"), chosen)
     out = ctx.path("search_basic.ndjson")
     # a search that takes the whole process down (stack overflow, abort) cannot be caught inside the
